@@ -174,14 +174,16 @@ class IsotropicSolidAngle(BaseProposal):
         on [0, pi] and phi on [0, 2*pi].
         """
         # convert from radec/degrees
+        # note: the angles may be (views of) arrays owned by the caller, so
+        # they must not be modified in place
         if self.isradec and convert:
             if self.isdegs:
-                theta += 90.
+                theta = theta + 90.
             else:
-                theta += numpy.pi / 2
+                theta = theta + numpy.pi / 2
         if self.isdegs and convert:
-            phi *= numpy.pi / 180.
-            theta *= numpy.pi / 180.
+            phi = phi * (numpy.pi / 180.)
+            theta = theta * (numpy.pi / 180.)
         stheta = numpy.sin(theta)
         x = stheta * numpy.cos(phi)
         y = stheta * numpy.sin(phi)
